@@ -2,6 +2,7 @@
 // of the real code by the Kani harnesses; these lemmas lift the per-function contracts to the
 // statements of the properties. Checked by Verus on every run.
 use vstd::prelude::*;
+use vstd::set_lib::*;
 verus! {
 
 // ---------------------------------------------------------------- L-max (C06): priority merge is a max-fold
@@ -182,6 +183,61 @@ pub proof fn lemma_count(count: nat, items: Seq<bool>, at_least: nat, at_most: n
         lemma_count(count + 1, items.drop_first(), at_least, at_most);
     } else {
     }
+}
+
+// ---------------------------------------------------------------- L-memo (C11): nesting of memoized attempts is bounded
+/// Index of a memo key (position, parser number) in the finite key space [0, (len+1)*p).
+pub open spec fn key_index(k: (nat, nat), p: nat) -> int { (k.0 * p + k.1) as int }
+
+proof fn lemma_key_index_injective(a: (nat, nat), b: (nat, nat), p: nat)
+    requires a.1 < p, b.1 < p, key_index(a, p) == key_index(b, p),
+    ensures a == b,
+{
+    if a.0 < b.0 {
+        assert((a.0 + 1) * p <= b.0 * p) by (nonlinear_arith) requires a.0 + 1 <= b.0;
+        assert((a.0 + 1) * p == a.0 * p + p) by (nonlinear_arith);
+    } else if b.0 < a.0 {
+        assert((b.0 + 1) * p <= a.0 * p) by (nonlinear_arith) requires b.0 + 1 <= a.0;
+        assert((b.0 + 1) * p == b.0 * p + p) by (nonlinear_arith);
+    }
+}
+proof fn lemma_key_index_range(a: (nat, nat), len: nat, p: nat)
+    requires a.0 <= len, a.1 < p,
+    ensures 0 <= key_index(a, p) < (len + 1) * p,
+{
+    assert(a.0 * p <= len * p) by (nonlinear_arith) requires a.0 <= len;
+    assert((len + 1) * p == len * p + p) by (nonlinear_arith);
+    assert(0 <= a.0 * p) by (nonlinear_arith);
+}
+/// The chain of memoized attempts that are active (nested) at some moment of a parse: one key
+/// (position, parser) per attempt. By the contract proved of `Memoized::go` (C11/memoized.reentry-*:
+/// a key that is in progress is not entered again, the attempt fails at once without running the
+/// parser), the keys of a chain are pairwise distinct; positions are cursor positions (<= len) and the
+/// grammar contains p memoized parsers. Hence the chain - and with it the recursion through memoized
+/// steps, in particular a left-recursive step - is never deeper than (len + 1) * p.
+pub proof fn lemma_memo_nesting_bounded(chain: Seq<(nat, nat)>, len: nat, p: nat)
+    requires
+        forall|i: int| 0 <= i < chain.len() ==> chain[i].0 <= len && chain[i].1 < p,
+        forall|i: int, j: int| 0 <= i < j < chain.len() ==> chain[i] != chain[j],
+    ensures chain.len() <= (len + 1) * p,
+{
+    let idx = Seq::new(chain.len(), |i: int| key_index(chain[i], p));
+    assert forall|i: int, j: int| 0 <= i < idx.len() && 0 <= j < idx.len() && i != j implies idx[i] != idx[j] by {
+        if idx[i] == idx[j] {
+            lemma_key_index_injective(chain[i], chain[j], p);
+            if i < j { assert(chain[i] != chain[j]); } else { assert(chain[j] != chain[i]); }
+        }
+    }
+    assert(idx.no_duplicates());
+    idx.unique_seq_to_set();
+    let n = ((len + 1) * p) as int;
+    assert(0 <= n) by (nonlinear_arith) requires n == (len + 1) * p;
+    lemma_int_range(0, n);
+    assert forall|x: int| #[trigger] idx.to_set().contains(x) implies set_int_range(0, n).contains(x) by {
+        let i = choose|i: int| 0 <= i < idx.len() && idx[i] == x;
+        lemma_key_index_range(chain[i], len, p);
+    }
+    lemma_len_subset(idx.to_set(), set_int_range(0, n));
 }
 
 } // verus!
